@@ -13,8 +13,9 @@ def catalog():
 
     # small unimodal runs (fast; used by quick tiers)
     add('gauss', like='gauss', n_live=30, n_batch=15, n_eff=100, f_live=0.1)
-    add('gauss_d', like='gauss', n_live=30, n_batch=15, n_eff=50, f_live=0.1, discard=True)
-    add('gauss_net', like='gauss', n_live=40, n_batch=20, n_networks=1, n_eff=120, f_live=0.1)
+    add('gauss_s', like='gauss', n_live=30, n_batch=15, n_eff=320, f_live=0.1)
+    add('gauss_d', like='gauss', n_live=30, n_batch=30, n_eff=40, f_live=0.1, discard=True)
+    add('gauss_net', like='gauss', n_live=40, n_batch=20, n_networks=1, n_eff=60, f_live=0.15)
     add('two', like='two', n_live=60, n_batch=20, n_eff=150, f_live=0.1, n_points_min=5)
     add('ring_net', like='ring', n_live=50, n_batch=25, n_networks=1, n_eff=150, f_live=0.1,
         n_points_min=5)
@@ -29,7 +30,7 @@ def catalog():
         pool_s=2)
     add('b1', like='gauss', n_live=10, n_batch=1, n_update=3, n_eff=20, f_live=0.3,
         n_points_min=4)
-    add('b7_update', like='gauss', n_live=30, n_batch=7, n_update=10, n_eff=100, f_live=0.1)
+    add('b7_update', like='gauss', n_live=30, n_batch=7, n_update=10, n_eff=50, f_live=0.15)
     add('nofile', like='gauss', n_live=30, n_batch=15, n_eff=100, f_live=0.1, file=False)
     # blobs x evaluation modes
     add('blob_float', like='gauss', blob='float', n_live=30, n_batch=15, n_eff=80, f_live=0.1)
